@@ -681,6 +681,8 @@ pub enum Item
     DecoySameLine(Decoy),
     Filler(String),
     Blank(usize),
+    /// this many lines of ordinary code (large files: nothing about a statement may depend on the file's size)
+    Pad(u32),
 }
 
 #[derive(Clone, Copy, Debug, PartialEq, Eq, Hash, Serialize, Deserialize)]
@@ -773,6 +775,16 @@ pub fn corpus_filler_lines() -> &'static Vec<String>
     })
 }
 
+/// Mostly a handful of lines; rarely (about 1 file in 60) enough to make the file 0.1 - 1.5 MB.
+fn pad_item() -> BoxedStrategy<Item>
+{
+    prop_oneof![
+        30 => (1u32..6).prop_map(Item::Pad),
+        1 => (1_500u32..22_000).prop_map(Item::Pad),
+    ]
+    .boxed()
+}
+
 pub fn file_spec(cfg: &ConfigSpec, p: &StmtParams, max_items: usize, decoys: bool) -> BoxedStrategy<FileSpec>
 {
     let mut sp = p.clone();
@@ -790,6 +802,7 @@ pub fn file_spec(cfg: &ConfigSpec, p: &StmtParams, max_items: usize, decoys: boo
             2 => select(FILLERS).prop_map(|s| Item::Filler(s.to_string())),
             1 => real,
             1 => (1usize..3).prop_map(Item::Blank),
+            1 => pad_item(),
         ]
         .boxed()
     }
@@ -800,6 +813,7 @@ pub fn file_spec(cfg: &ConfigSpec, p: &StmtParams, max_items: usize, decoys: boo
             2 => select(FILLERS).prop_map(|s| Item::Filler(s.to_string())),
             1 => real,
             1 => (1usize..3).prop_map(Item::Blank),
+            1 => pad_item(),
         ]
         .boxed()
     };
@@ -1232,6 +1246,14 @@ pub fn render_file(f: &FileSpec, cfg: &ConfigSpec) -> Rendered
                 for _ in 0..*n
                 {
                     text.push('\n');
+                }
+                at_line_start = true;
+            },
+            Item::Pad(n) =>
+            {
+                for i in 0..*n
+                {
+                    text.push_str(&format!("    let pad_{:06} = compute(pad_{:06}, {}); // ordinary line {}\n", i, i.saturating_sub(1), i % 97, i));
                 }
                 at_line_start = true;
             },
